@@ -117,3 +117,163 @@ class _:
 
     loops = {0: STRIP_LOOP}
     ghost = NORMALIZE_GHOST
+
+
+# ------------------------------------------------------------------ construction
+@contract(M + 'from_man_exp')
+class _:
+    shapes = dict(man='int', exp='int', prec='int')
+    variants = [dict(prec=None)]
+    none_as = dict(prec=0)
+    result = 'mpf'
+    props = dict(wf=['C01'], bits=['C10'], value=['C02'])
+    all_props = ['C01', 'C02', 'C10']
+
+    def requires(man, exp, prec, rnd):
+        return prec is None or prec >= 0
+
+    def ensures_wf(man, exp, prec, rnd, result):
+        return WFfin(result)
+
+    def ensures_bits(man, exp, prec, rnd, result):
+        return prec is None or prec == 0 or result[3] <= prec
+
+    def ensures_value(man, exp, prec, rnd, result):
+        return CRoundOrExact(result, 1 if man < 0 else 0, -man if man < 0 else man, exp,
+                             0 if prec is None else prec, rnd)
+
+    loops = {0: STRIP_LOOP}
+    ghost = {
+        ('man = MPZ(man)', 0, 'before'): ['g_man0 = man'],
+        ('if not man & 1:', 0, 'before'): ['g_man1 = man', 'g_exp1 = exp', 'g_bc1 = bc'],
+        ('return (sign, man >> 1, exp + 1, bc - 1)', 0, 'before'): [
+            'lemma_bitlen_mul_pow2(shr(man, 1), 1)'],
+        ('t = trailtable[int(man & 255)]', None, 'after'): ['split t 0 7'],
+        ('man >>= t', None, 'before'): ['g_m = man'],
+        ('man >>= t', None, 'after'): ['lemma_mul_eq(g_m, man * pow2(t), pow2(exp - g_exp1))'],
+        ('exp += t', None, 'after'): [
+            'lemma_mul_eq(pow2(exp - g_exp1), pow2(t) * pow2(exp - t - g_exp1), man)'],
+        ('return (sign, man, exp, bc)', 0, 'before'): [
+            'cut (g_man1 >= 1 and g_bc1 == bitlen(g_man1) and (prec is None or prec == 0) and '
+            'g_man1 == (-g_man0 if g_man0 < 0 else g_man0) and sign == (1 if g_man0 < 0 else 0) and '
+            '(man == g_man1 and exp == g_exp1 and bc == g_bc1 and man % 2 == 1 or '
+            ' StripPost(man, exp, bc, g_man1, g_exp1, g_bc1)))',
+            'lemma_bitlen_mul_pow2(man, exp - g_exp1)'],
+    }
+
+
+@contract(M + 'from_int')
+class _:
+    shapes = dict(n='int', prec='int')
+    result = 'mpf'
+    props = dict(wf=['C01'], bits=['C10'], value=['C02'])
+    all_props = ['C01', 'C02', 'C10']
+
+    def requires(n, prec, rnd):
+        return prec >= 0
+
+    def ensures_wf(n, prec, rnd, result):
+        return WFfin(result)
+
+    def ensures_bits(n, prec, rnd, result):
+        return prec == 0 or result[3] <= prec
+
+    def ensures_value(n, prec, rnd, result):
+        return CRoundOrExact(result, 1 if n < 0 else 0, -n if n < 0 else n, 0, prec, rnd)
+
+
+# ------------------------------------------------------------------ sign manipulation
+@contract(M + 'mpf_pos')
+class _:
+    shapes = dict(s='mpf', prec='int')
+    result = 'mpf'
+    props = dict(wf=['C01'], bits=['C10'], value=['C02'])
+    all_props = ['C01', 'C02', 'C10']
+
+    def requires(s, prec, rnd):
+        return WF(s) and prec >= 0
+
+    def ensures_wf(s, prec, rnd, result):
+        return WF(result)
+
+    def ensures_bits(s, prec, rnd, result):
+        return prec == 0 or special(result) or result[3] <= prec
+
+    def ensures_value(s, prec, rnd, result):
+        return RoundOf(result, s, prec, rnd)
+
+
+@contract(M + 'mpf_neg')
+class _:
+    shapes = dict(s='mpf', prec='int')
+    variants = [dict(prec=None)]
+    none_as = dict(prec=0)
+    result = 'mpf'
+    props = dict(wf=['C01'], bits=['C10'], value=['C02'])
+    all_props = ['C01', 'C02', 'C10']
+
+    def requires(s, prec, rnd):
+        return WF(s) and (prec is None or prec >= 0)
+
+    def ensures_wf(s, prec, rnd, result):
+        return WF(result)
+
+    def ensures_bits(s, prec, rnd, result):
+        return prec is None or prec == 0 or special(result) or result[3] <= prec
+
+    def ensures_value(s, prec, rnd, result):
+        return RoundOf(result, neg_of(s), 0 if prec is None else prec, rnd)
+
+
+@contract(M + 'mpf_abs')
+class _:
+    shapes = dict(s='mpf', prec='int')
+    variants = [dict(prec=None)]
+    none_as = dict(prec=0)
+    result = 'mpf'
+    props = dict(wf=['C01'], bits=['C10'], value=['C02'])
+    all_props = ['C01', 'C02', 'C10']
+
+    def requires(s, prec, rnd):
+        return WF(s) and (prec is None or prec >= 0)
+
+    def ensures_wf(s, prec, rnd, result):
+        return WF(result)
+
+    def ensures_bits(s, prec, rnd, result):
+        return prec is None or prec == 0 or special(result) or result[3] <= prec
+
+    def ensures_value(s, prec, rnd, result):
+        return RoundOf(result, abs_of(s), 0 if prec is None else prec, rnd)
+
+
+@contract(M + 'mpf_sign')
+class _:
+    shapes = dict(s='mpf')
+    result = 'int'
+    default_props = ['C05']
+    all_props = ['C05']
+
+    def requires(s):
+        return WF(s)
+
+    def ensures_sign(s, result):
+        return result == sgn_of(s)
+
+
+@contract(M + 'mpf_shift')
+class _:
+    """documented exact operation: multiply by 2**n"""
+    shapes = dict(s='mpf', n='int')
+    result = 'mpf'
+    props = dict(wf=['C01'], value=['C39'])
+    all_props = ['C01', 'C39']
+
+    def requires(s, n):
+        return WF(s)
+
+    def ensures_wf(s, n, result):
+        return WF(result)
+
+    def ensures_value(s, n, result):
+        return (s[1] == 0 and result == s) or (s[1] != 0 and result == (s[0], s[1], s[2] + n, s[3]))
